@@ -220,13 +220,17 @@ ColumnsSeparate ==
       RecAdv(PerturbOthers(Roll, c, x, dd))[t][c] = adv[t][c]
 
 \* each estimate, old log-probability and old value sits in the row of the observation and action of the
-\* (t, env, agent) it was computed for; every sample is used exactly once
+\* (t, env, agent) it was computed for
 RowsAligned ==
   phase = "learn" =>
-    /\ Len(rows) = NRows
-    /\ \A k \in 1..Len(rows) : LET r == rows[k] IN
+    \A k \in 1..Len(rows) : LET r == rows[k] IN
          /\ r.obs \in Ids
          /\ r.act = r.obs /\ r.logp = r.obs /\ r.adv = r.obs /\ r.ret = r.obs /\ r.val = r.obs
+\* the model's Flatten moreover uses every sample exactly once (a sanity property of the model; C17 does not
+\* demand it of the code)
+RowsComplete ==
+  phase = "learn" =>
+    /\ Len(rows) = NRows
     /\ \A k1, k2 \in 1..Len(rows) : rows[k1].obs = rows[k2].obs => k1 = k2
 
 TypeOK ==
